@@ -80,15 +80,26 @@ where
         // Rewind and truncate the file
         file.rewind().await?;
         file.set_len(0).await?;
+        #[cfg(sos_verif)]
+        sos_core::verif_hooks::probe("fs_vault.write_header.emptied");
 
         let mut guard = file.lock_write().await.map_err(|e| e.error)?;
 
         // Write out the header
         guard.write_all(&head).await?;
+        #[cfg(sos_verif)]
+        {
+            guard.flush().await?;
+            sos_core::verif_hooks::probe(
+                "fs_vault.write_header.head_written",
+            );
+        }
 
         // Write out the content
         guard.write_all(&content).await?;
         guard.flush().await?;
+        #[cfg(sos_verif)]
+        sos_core::verif_hooks::probe("fs_vault.write_header.content_written");
 
         Ok(())
     }
@@ -123,6 +134,8 @@ where
             // Rewind and truncate the file to the head
             guard.rewind().await?;
             guard.inner_mut().set_len(head.end).await?;
+            #[cfg(sos_verif)]
+            sos_core::verif_hooks::probe("fs_vault.splice.truncated");
         } else {
             unreachable!("file splice head range always starts at zero");
         }
@@ -133,11 +146,18 @@ where
         // Inject the content if necessary
         if let Some(content) = content {
             guard.write_all(content).await?;
+            #[cfg(sos_verif)]
+            {
+                guard.flush().await?;
+                sos_core::verif_hooks::probe("fs_vault.splice.row_written");
+            }
         }
 
         // Write out the end portion
         guard.write_all(&end).await?;
         guard.flush().await?;
+        #[cfg(sos_verif)]
+        sos_core::verif_hooks::probe("fs_vault.splice.tail_written");
 
         Ok(())
     }
@@ -279,6 +299,8 @@ where
         let mut guard = file.lock_write().await.map_err(|e| e.error)?;
         guard.write_all(&buffer).await?;
         guard.flush().await?;
+        #[cfg(sos_verif)]
+        sos_core::verif_hooks::probe("fs_vault.insert_secret.row_appended");
 
         Ok(WriteEvent::CreateSecret(id, row))
     }
@@ -375,9 +397,13 @@ where
             .truncate(true)
             .open(&self.file_path)
             .await?;
+        #[cfg(sos_verif)]
+        sos_core::verif_hooks::probe("fs_vault.replace_vault.emptied");
         let mut guard = file.lock_write().await.map_err(|e| e.error)?;
         guard.write_all(&buffer).await?;
         guard.flush().await?;
+        #[cfg(sos_verif)]
+        sos_core::verif_hooks::probe("fs_vault.replace_vault.written");
 
         Ok(())
     }
